@@ -100,6 +100,7 @@ func Build(s Spec, o *Obs, newMetrics func() service.ServiceMetrics) func() {
 				return &tee{rec, o.Metrics.AddOpenTCPConnection(conn)}
 			}
 		}
+		vw.DialHang["93.184.216.39:80"] = true
 		if s.FailFirst {
 			w.FailHandler = func(remote string) bool { return strings.HasPrefix(remote, "203.0.113.10:") }
 		}
@@ -202,6 +203,28 @@ func Build(s Spec, o *Obs, newMetrics func() service.ServiceMetrics) func() {
 				vrt.Sleep(time.Second)
 				cl.CloseWrite()
 				vrt.Join(rd)
+				cl.Close()
+				finish(cl)
+			case "hang":
+				// the target never answers the connect: the handler sits in the dial until its context is
+				// cancelled (the listener closes); the client just waits
+				co.Want, co.WantAuth = "ERR_CONNECT", true
+				wire = world.EncodeStream(key, seed, world.Addr("93.184.216.39:80"), upPayload)
+				cl := world.Dial(from)
+				cl.Send(wire, 0)
+				cl.ReadAll()
+				cl.Close()
+				finish(cl)
+			case "empty":
+				// the client connects, sends nothing at all and goes away (Var 0) / stays until the server
+				// gives up (Var 1)
+				co.Want = "ERR_CIPHER"
+				cl := world.Dial(from)
+				if cs.Var == 0 {
+					vrt.Sleep(time.Second)
+					cl.CloseWrite()
+				}
+				cl.ReadAll()
 				cl.Close()
 				finish(cl)
 			case "cipher":
